@@ -50,7 +50,7 @@ def cases(tier, seed):
                 g["nlevels"] = min(g["nlevels"], 2)
             if bf == 4:
                 g["nlevels"] = min(g["nlevels"], 3)
-        cs.append({"gen": g, "sel_seed": seed * 61 + i})
+        cs.append({"gen": g, "sel_seed": seed * 61 + i, "fmt": dict(ref_ratio_extra=rng.choice([0, 0, 1, 3]), trailing_blank=rng.random() < 0.7, close_blank=rng.random() < 0.3, floatfmt=rng.choice(["repr", "17g"]))})
     return cs
 
 
